@@ -52,6 +52,7 @@ def sources():
         ("harness_all", os.path.join(core.VERIF, "sim", "c12", "schemas"), True, 3),
         ("features", os.path.join(core.VERIF, "sim", "c12", "schemas", "features"), False, 4),
         ("idclash", os.path.join(core.VERIF, "sim", "c12", "schemas", "idclash"), False, 4),
+        ("casepair", os.path.join(core.VERIF, "sim", "c12", "schemas", "casepair"), False, 3),
         ("symlinked", os.path.join(core.VERIF, "sim", "c12", "schemas", "symlinked", "catalog"), False, 5),
         ("dtd_default_ns", f"{fx}/dtd/default_namespace.dtd", False, 1),
         ("dtd_prefix_ns", f"{fx}/dtd/prefix_namespace.dtd", False, 1),
